@@ -1102,7 +1102,10 @@ impl<T: Transport, Env: UtpEnvironment> VirtualSocket<T, Env> {
                 return Ok(Default::default());
             }
             (Closed, _) => {
-                return Err(Error::BugRecvInClosed);
+                // A poll that reached Closed may have stopped on a busy transport before
+                // quitting; whatever the peer sends meanwhile is of no interest anymore.
+                trace!("already closed, ignoring");
+                return Ok(Default::default());
             }
             (SynReceived, _) => return Err(Error::BugUnexpectedPacketInSynReceived),
             (SynAckSent { .. }, ST_DATA | ST_STATE) => {
